@@ -48,8 +48,10 @@ package types
 //@ may_panic
 //@ func (k TSSKeeper) GetMemberByAddress
 //@ trusted
+//@ spec tssDEQ(o OtherState, a Addr) tsstypes.DEQueue uninterpreted
 //@ func (k TSSKeeper) GetDEQueue
 //@ trusted
+//@ ensures result == tssDEQ(Other, address)
 //@ func (k TSSKeeper) RequestSigning
 //@ trusted
 //@ modifies Other
@@ -62,3 +64,13 @@ package types
 //@ func (k TSSKeeper) DeactivateMember
 //@ trusted
 //@ modifies Other
+
+//@ func (k AccountKeeper) GetModuleAccount
+//@ trusted
+//@ func (k AccountKeeper) GetModuleAddress
+//@ trusted
+//@ func (k DistrKeeper) GetCommunityTax
+//@ trusted
+//@ func (k DistrKeeper) FundCommunityPool
+//@ trusted
+//@ modifies Bank, Other
